@@ -32,6 +32,26 @@ def seeded_table():
     head = "| seeded change | property | what was changed | what it needs to manifest | confirmed (demo passes clean / fails patched, 174 tests pass) | our checks | violation kind reported |\n|---|---|---|---|---|---|---|\n"
     return head + "\n".join(rows) + "\n"
 
+def cross_table():
+    p = os.path.join(ROOT, "seeded", "CROSS.json")
+    if not os.path.exists(p):
+        return "(cross matrix not run yet)\n"
+    d = json.load(open(p))
+    out = "Quick command of EVERY check against every seeded change (`tools/cross.py`; exit 1 = fires). No run ended INCONCLUSIVE.\n\n| seeded change | its own check | other checks that also fire |\n|---|---|---|\n"
+    n_own = 0
+    for s in sorted(d):
+        r = d[s]
+        if "error" in r:
+            continue
+        own = s.split("-")[0]
+        fires = [c for c, v in sorted(r.items()) if isinstance(v, dict) and v.get("exit") == 1]
+        inc = [c for c, v in sorted(r.items()) if isinstance(v, dict) and v.get("exit") not in (0, 1)]
+        n_own += own in fires
+        out += f"| {s} | {'fires (' + r[own]['kind'] + ')' if own in fires else 'silent'} | {', '.join(c for c in fires if c != own) or '-'}{' ; INCONCLUSIVE: ' + ', '.join(inc) if inc else ''} |\n"
+    out += f"\n{n_own} of {len(d)} seeded changes are reported by the quick check of the property they were written against; "
+    out += "the others are reported by the check that owns the mechanism (history dependence: C14) or are discussed in section 14.\n"
+    return out
+
 def mutant_table():
     p = os.path.join(ROOT, "selftest", "RESULTS.json")
     if not os.path.exists(p):
@@ -52,7 +72,7 @@ def main():
     p = os.path.join(ROOT, "DESIGN.md")
     s = open(p).read()
     b, e = "<!-- BEGIN GENERATED TABLES -->", "<!-- END GENERATED TABLES -->"
-    block = f"{b}\n\n### 13.1 Changes seeded by independent sub-agents\n\n{seeded_table()}\n### 13.2 Mutation self-test (`selftest/run.py`)\n\n{mutant_table()}\n{e}"
+    block = f"{b}\n\n### 13.1 Changes seeded by independent sub-agents\n\n{seeded_table()}\n### 13.2 Mutation self-test (`selftest/run.py`)\n\n{mutant_table()}\n### 13.3 Cross matrix: which checks catch which changes\n\n{cross_table()}\n{e}"
     if b in s:
         s = s[:s.index(b)] + block + s[s.index(e) + len(e):]
     else:
